@@ -211,7 +211,8 @@ def emit(name, layout, segtab, chains, out):
     L.append("Definition %s_layout : klayout := %s." % (name, layout))
     L.append("Definition %s_segs : list seg := [%s]." % (name, "; ".join("%s_seg%d" % (name, idx) for idx, _, _ in items)))
     L.append("Definition %s_chains : list (nat * list nat) := [%s]." % (name, "; ".join("(%d, [%s])" % (k, "; ".join(map(str, chains[k]))) for k in sorted(chains))))
-    open(out, "w").write("\n".join(L) + "\n")
+    from symx import write_if_changed
+    write_if_changed(out, "\n".join(L) + "\n")
 
 
 if __name__ == "__main__":
